@@ -84,10 +84,7 @@ def grl_ok(model):
 def check_case(case):
     model = case["model"]
     text = X.render_model(model)
-    try:
-        ode = B.load(text)
-    except Exception as ex:
-        raise Violation(f"C02:load-rejected:{type(ex).__name__}", {"text": text, "error": str(ex)[:500]})
+    ode = oracle.load_or_skip(text)
     schemes = ["explicit_euler"] + (["generalized_rush_larsen"] if grl_ok(model) else [])
     grl_failed = False
     try:
